@@ -370,7 +370,7 @@ def _check_formula_builder(rep: Report, rule: str, fr, fi, kind: str) -> None:
         want_lits = ['=HYPERLINK("#', ".a", ":z", '"; ', ")"] if numeric else ['=HYPERLINK("#', ".a", ":z", '"; "', '")']
         ok_l = lits == want_lits
         ok_t = len(terms) == 4 and tkey(terms[0]) == tkey(sheet) and row is not None and tkey(terms[1]) == tkey(row) and tkey(terms[2]) == tkey(row) and terms[3] == ("sym", "value")
-        table_ok = row is not None and any(s[0] in ("old", "sub") or (s[0] == "xcall" and s[1] == "get") or (s[0] == "call" and "__get_in_out_sheet_row" in s[1]) for s in _tuples(row))
+        table_ok = row is not None and any(s[0] in ("old", "sub") or (s[0] == "xcall" and s[1] == "get") or (s[0] == "call" and "__get_in_out_sheet_row" in s[1]) for s in _tuples(row) if s)
         rep.check(
             ok_l and ok_t and table_ok,
             rule,
